@@ -10,6 +10,52 @@ def C(level, technique, decided, note=""):
 
 
 CLAIMS = {
+
+ "C01": C("other", "must-pass-through pairing, def-use and guarded-by over alloc/free/page/segment code + module ownership",
+          "C01: pop/push pairing with the used counter, list conservation, free-list extension bounded by the reserve computed from the page's own area, page free only when all-free, "
+          "span split/merge arithmetic and guards, byte units of slice back-pointers, flag-byte integrity, module-level ownership of bookkeeping fields.",
+          "Composition of these steps into `no overlap for every history` needs the inductive heap invariant and is not decided."),
+ "C02": C("other", "atomic-protocol shape analysis over all CAS/RMW sites + field-effect analysis of the remote-free call graph",
+          "C02: CAS-loop freshness at all retry loops, CAS result discipline (29 sites), effect separation of the cross-thread free (no owner-only page state touched), the "
+          "DELAYED_FREEING bracket, owner-side ordering, a frozen memory-order floor table, RMW-only updates of the shared list words.",
+          "Linearizability / absence of double hand-out over interleavings is a schedule property and not decided (model-checking family)."),
+ "C03": C("other", "linear-inequality proof + witness search + residue-exhaustive abstract interpretation + guarded-by",
+          "C03: has_aligned set on every path returning an interior pointer; over-allocation >= size+alignment-1 (proved/refuted); form of poffset/adjust; every consumer un-aligns; "
+          "flag-byte integrity; for all produced block sizes and all page-start residues the page start is 16- and block-size-aligned; huge-alignment plumbing.",
+          "Trusts lib/absint.py transfer functions."),
+ "C06": C("other", "sibling agreement over all (count,size) entry points + dominance of validation over allocation",
+          "C06: 25 (count,size) entry points check the multiplication identically or forward the pair unchanged; the size ceiling dominates huge allocation; alignment validation dominates "
+          "every allocation call; posix_memalign validates, allocates, then stores; errno conventions.",
+          "`Fails only when the OS refuses` (liveness) is not decided."),
+ "C08": C("other", "ordering (must-pass) and no-loss shape of the delayed-free consumer/producer + reachability of drains",
+          "C08: re-arm ≺ collect ≺ local free(check_full) in the delayed consumer (never overriding NEVER), link read before free and re-push on refusal, exactly one publication per remote free, "
+          "periodic and collect-time drains, the full-queue round trip, recount by the walked count.",
+          "Boundedness of memory over time is not decided."),
+ "C12": C("other", "result discipline of all indirect visitor calls + dominance + cursor pairing + table/arith checks",
+          "C12: every queue walked with next saved before the callback, collect before inspect, visitor result honoured at all 6 sites, abandoned walk re-marks every fetched segment, "
+          "free-map sizing against the bin table and index/bit split, block cursor arithmetic.",
+          "Equality of the visited multiset with the live set for every history is not decided."),
+ "C13": C("other", "orientation analysis of rounding (conservative vs liberal) + must-pass bracket of arena purges + def-use of masks",
+          "C13 (second sentence only): purge rounds inwards / commit outwards at both levels with the right constant at every caller; purge mask ⊆ commit mask, cleared on commit; "
+          "commit before use; arena purge bracketed by an in-use claim and scheduled before release; live huge blocks only reset.",
+          "The first sentence (all guarantees under every option combination) is a run-time matrix and NOT decided by this technique."),
+ "C14": C("other", "CAS observed-clear/freshness conditions in bitmap.c + roll-back region analysis + claim/free agreement",
+          "C14: bits or-ed in only after observed clear, all failure edges of the multi-field claim pass the roll-back, conditional undo of the initial field, bounded retry, "
+          "claim/free agree on count and index with a checked result, containment arithmetic, mask helper structure.",
+          "Disjointness of concurrently returned ranges over interleavings is not decided."),
+ "C16": C("proof", "interval abstract interpretation of the extracted source over partitions of the whole input domain (bisection on undecided cells)",
+          "C16: ∀ size in [0, PTRDIFF_MAX] mi_bin is exactly the first produced bin >= size (HUGE above the medium maximum); bin/span tables; mi_good_size; mi_slice_bin8 on [0,512]; fast division "
+          "= floor(n/d) for the table's divisors (all cells in the thorough tier); _mi_ptr_segment on (kS,(k+1)S]; slice index range; alignment helpers on boundary cells; unalign at full width; "
+          "debug assertions of these functions cannot fail (thorough).",
+          "Trusts lib/absint.py (interval transfer functions, builtin models); A4 above the medium maximum and A10 are sampled laws and say so; quick tier proves A7 on boundary cells only."),
+ "C17": C("other", "presence/order/dominance analysis in the two hardened programs (MI_SECURE=4, MI_DEBUG=3)",
+          "C17: double-free check before any store, padding check before the push / before the remote publication and before _mi_padding_shrink, report-and-cut of out-of-page links, "
+          "who-may-decode page-keyed links, bounded remote walk, inverse structure of the pointer codec, canary/delta written and validated, detection paths return normally with EAGAIN/EFAULT.",
+          "Detection of forged in-page values is excluded by the property itself."),
+ "C19": C("other", "symbol-table check of the override unit's AST against an ABI oracle table + call-graph reachability",
+          "C19: all 49 overriding symbols (22 aliases, 27 bodies incl. 20 operator new/delete forms) are defined, default-visible, forward to the stated mi_ function with the stated argument "
+          "order; every target reaches this library's allocator and no libc allocator.",
+          "What the dynamic linker binds at run time is not decided."),
  "C04": C("other", "interprocedural constant-flag flow + must-pass-through + symbolic range bounds",
           "C04: the constant zero flag reaches the zeroing primitive (or a verified zero-afterwards memzero over the usable size) from all 27 zero-family entry points on every returning path; "
           "the primitive zeroes block_size not the request; page zero-flag stores; the moving re-allocation zeroes [<= old usable, new usable).",
